@@ -683,8 +683,13 @@ class Stream(AbstractStream):
 
         """
         if isinstance(stream_data, StreamData):
-            self.phases = stream_data._phases
-            self._imol.copy_like(stream_data._imol)
+            self.phases = phases = stream_data._phases
+            imol = stream_data._imol
+            if len(phases) == 1 and isinstance(imol, MaterialIndexer):
+                # Data of a multi-phase stream that holds a single phase
+                phase, = phases
+                imol = imol.to_chemical_indexer(phase)
+            self._imol.copy_like(imol)
             self._thermal_condition.copy_like(stream_data)
         else:
             raise ValueError(f'stream_data must be a StreamData object; not {type(stream_data).__name__}')
